@@ -16,7 +16,7 @@ struct Cfg {
     int fmg = 0, fmg_it = 2, fmg_cycle = 0, extr = 0, maxlev = -1, pre = 1, post = 1, cycle = 0, maxit = 150, norm = 0;
     double abstol = 1e-8, reltol = 1e-8;
     // general
-    int threads = 1, strat = 0, cc = 1, cg = 1, exact = 1, verbose = 0;
+    int threads = 1, strat = 0, cc = 1, cg = 1, exact = 1, verbose = 0, paraview = 0;
     double tfactor = 1.0;
 
     static Cfg fromCase(const Case& c)
@@ -55,6 +55,7 @@ struct Cfg {
         k.exact      = c.i("exact", k.exact);
         k.tfactor    = c.d("tfactor", k.tfactor);
         k.verbose    = c.i("verbose", 0);
+        k.paraview   = c.i("paraview", 0);
         return k;
     }
     Problem problem() const
@@ -67,7 +68,7 @@ struct Cfg {
 inline void applyOptions(GMGPolar& s, const Cfg& k)
 {
     s.verbose(k.verbose);
-    s.paraview(false);
+    s.paraview(k.paraview != 0);
     s.maxOpenMPThreads(k.threads);
     s.threadReductionFactor(k.tfactor);
     s.stencilDistributionMethod(static_cast<StencilDistributionMethod>(k.strat));
